@@ -248,3 +248,35 @@ fn c20_grouping_hashmap_prefix_local_then4() {
     kani::cover!(model.depth == 2, "depth 2 reached");
     std::mem::forget(m);
 }
+
+/// Depth 3: from inside two open groups (each holding a local binding of a symbolic key), 4 further
+/// symbolic operations with up to three open groups.
+#[kani::proof]
+#[kani::unwind(5)]
+fn c20_grouping_hashmap_depth3_prefix_then4() {
+    let mut m: GroupingHashMap<u8, u8> = Default::default();
+    let mut model = Model::new();
+    let mut d = 0;
+    while d < 2 {
+        m.begin_group();
+        model.begin();
+        let v0: u8 = kani::any();
+        kani::assume(v0 == 1 || v0 == 2);
+        if kani::any() {
+            m.insert(1u8, v0, Scope::Local);
+            model.insert(1, v0, false);
+        } else {
+            m.insert(0u8, v0, Scope::Local);
+            model.insert(0, v0, false);
+        }
+        d += 1;
+    }
+    check_hash(&m, &model);
+    let o1 = step_hash!(m, model, 3);
+    let o2 = step_hash!(m, model, 3);
+    let o3 = step_hash!(m, model, 3);
+    let o4 = step_hash!(m, model, 3);
+    kani::cover!(o1 == 0 && o2 == 3 && o3 == 1 && o4 == 1, "begin (depth 3), global, end, end");
+    kani::cover!(o1 == 3 && o2 == 1 && o3 == 1 && o4 == 2 && model.depth == 0, "global at depth 2, close both groups, local at depth 0");
+    std::mem::forget(m);
+}
